@@ -438,7 +438,7 @@ def err_module(e):
             s.append(f'            let value = E::{v["name"]} {{ {", ".join(inits)} }};\n')
         else:
             s.append(f'            let value = E::{v["name"]};\n')
-        s.append(f'            check_error_enum(rep, "E{e["k"]} ({e["iface"]}) variant {v["name"]}", "{fq}", &value, {"Some(params)" if v["fields"] else "None"}, |b| serde_json::from_slice::<E>(b).map(|d| d == value).map_err(|x| x.to_string()));\n')
+        s.append(f'            check_error_enum(rep, "E{e["k"]} ({e["iface"]}) variant {v["name"]}", "{fq}", &value, {"Some(params)" if v["fields"] else "None"}, |b| crate::decode_both!(E, b, value));\n')
         s.append("        }\n")
     s.append("    }\n}\n")
     return "".join(s)
